@@ -37,7 +37,8 @@ CFG = PropCfg(
     rule="a case is one program over the exported API of cyclist.Cyclist (new; init/empty; absorb/enc/dec/sq/sqk/"
          "ratchet ...), run on the real object and on the Lean transcription of the Cyclist algorithms over the Lean "
          "Keccak-p[1600,12]; every output byte is compared. The Go side keeps a peer object running the mirror program "
-         "(decrypts what was encrypted and vice versa) and flags any divergence. Suite C13 is the normal build "
+         "(decrypts what was encrypted and vice versa) and flags any divergence; a quarter of the enc/dec calls are "
+         "`enci`/`deci`: both objects work with output and input in the same buffer (found F38). Suite C13 is the normal build "
          "(assembly permutation on amd64), C13gen the build with tags purego,appengine (portable permutation). "
          "Fixed families: the XKCP transcript of cyclist/testdata, every operand length 0..280 for every operation "
          "in keyed and hash mode, all (|key|,|id|) pairs around the 136-byte limit, a malformed stream; then random "
